@@ -191,4 +191,9 @@ example : ∃ c, Reach 2 (init [5] [some 7]) c ∧ c.out = some (some 12) := by
   have s5 : Step 2 ⟨[], [], true, 12, 2, none⟩ ⟨[], [], true, 12, 2, some (some 12)⟩ := Step.finish _ rfl rfl
   exact .step (.step (.step (.step (.step .refl s1) s2) s3) s4) s5
 
+
+/-- every addition to the two totals is an atomic add, for local partitions as for remote answers
+(regenerated; the size trials also run under the race detector) -/
+theorem totals_added_atomically : Generated.sizeInfoTotalsAddedAtomically = true := by decide
+
 end Anndb.C17
